@@ -605,7 +605,14 @@ pub fn exec(plan: &ConcPlan) -> RunOut {
             if let Some((c, p)) = double {
                 out.violations.push(viol(&["C03", "C01", "C07"], "conc.double_accept", format!("two overlapping AddVersion requests of client {c} were both accepted on parent {p}; {why}; batch: {}", desc(&live))));
             } else {
-                let props: &[&str] = if live.iter().any(|d| matches!(d.req, Req::AddSnapshot { .. } | Req::GetSnapshot { .. })) { &["C03", "C11"] } else { &["C03"] };
+                let props: &[&str] = if live.iter().any(|d| matches!(d.req, Req::AddSnapshot { .. } | Req::GetSnapshot { .. })) {
+                    &["C03", "C11"]
+                } else if live.iter().any(|d| matches!(d.req, Req::GetChild { .. })) {
+                    // found / not-found / gone must agree with AddVersion also when they overlap
+                    &["C03", "C08"]
+                } else {
+                    &["C03"]
+                };
                 let mut v = viol(props, "conc.not_linearizable", format!("{why}; batch: {}; all requests incl. those failed behind an injected stall: {}", desc(&live), all));
                 // when the responses are explainable but the stored state is not, the state oracle
                 // that failed names the further properties concerned (e.g. payload bytes: C06)
